@@ -44,7 +44,7 @@ _Q = {
     'stream-restart:r>=1': 300, 'stream-restart:reopened-dataset': 150,
     'kind:mem': 25, 'kind:sql': 25, 'kind:submem': 25, 'kind:subsql': 25, 'kind:sqlslice': 25,
     'nul-family-ids': 60, 'cohort=n': 40, 'cohort=1': 30, 'round>=1e5': 300,
-}
+, 'stream-seed=0': 6}
 MIN_HITS = {'quick': _Q, 'thorough': {k: 15 * v for k, v in _Q.items()}}
 TECHNIQUE = ('runtime monitoring: history-table oracle over (seed, cohort, round) for UniformGetClientSampler under hostile '
              'request orders / fresh samplers / set_round_num, and restart-vs-from-zero differential for '
@@ -373,7 +373,9 @@ def case_stream(ctx, jax, cs, mods, rng, tmpdir, case_no):
       return
     n = len(world.view_ids)
     buf = int(rng.randint(1, n + 3))
-    sseed = int(rng.randint(0, 2**31 - 1))
+    # boundary seeds forced: 0 (a fixed seed that is falsy in Python), 1, 2**32-1
+    sseed = int([0, 1, 2**32 - 1][rng.randint(3)]) if rng.rand() < 0.3 else int(rng.randint(0, 2**31 - 1))
+    ctx.count('stream-seed=0' if sseed == 0 else 'stream-seed!=0')
     cohort = draw_cohort(rng, n)
     total = 7 + int(rng.randint(2, 4))
     base_wit = dict(world.wit, buffer_size=buf, shuffle_seed=sseed, cohort=cohort)
